@@ -3,11 +3,9 @@ package engcrash
 import (
 	"bytes"
 	"fmt"
-	"io"
 	"os"
 	"path/filepath"
 	"syscall"
-	"time"
 
 	"github.com/BurntSushi/toml"
 
@@ -103,43 +101,32 @@ func specialTargets(rep *emit.Report, w *world, root string) error {
 	if err := syscall.Mkfifo(pipe, 0o600); err != nil {
 		return err
 	}
-	got := make(chan []byte, 1)
-	go func() {
-		f, err := os.Open(pipe)
-		if err != nil {
-			got <- nil
-			return
-		}
-		b, _ := io.ReadAll(f)
-		_ = f.Close()
-		got <- b
-	}()
+	// the reading end is opened BEFORE Save runs (non-blocking open of a FIFO for reading succeeds
+	// without a writer), so whatever Save writes stays in the pipe until it is read here: no
+	// goroutine, no deadline
+	rfd, err := syscall.Open(pipe, syscall.O_RDONLY|syscall.O_NONBLOCK, 0)
+	if err != nil {
+		return err
+	}
 	rep.Count("special-target/fifo")
 	rep.Evaluations++
-	done := make(chan error, 1)
-	go func() { done <- key.Save(pipe, g, false) }()
-	select {
-	case err := <-done:
-		if err != nil {
-			fail("a named pipe", "error "+err.Error())
-			// unblock the reader
-			if f, e := os.OpenFile(pipe, os.O_WRONLY|syscall.O_NONBLOCK, 0); e == nil {
-				_ = f.Close()
-			}
+	saveErr := key.Save(pipe, g, false)
+	var gotBytes []byte
+	buf := make([]byte, 64*1024)
+	for {
+		k, rerr := syscall.Read(rfd, buf)
+		if k > 0 {
+			gotBytes = append(gotBytes, buf[:k]...)
+			continue
 		}
-		select {
-		case b := <-got:
-			if err == nil && !bytes.Equal(b, want.Bytes()) {
-				fail("a named pipe", "the reader of the pipe did not receive the text")
-			}
-		case <-time.After(3 * time.Second):
-			fail("a named pipe", "the reader of the pipe received nothing")
-			if f, e := os.OpenFile(pipe, os.O_WRONLY|syscall.O_NONBLOCK, 0); e == nil {
-				_ = f.Close()
-			}
-		}
-	case <-time.After(5 * time.Second):
-		fail("a named pipe", "Save did not return")
+		_ = rerr // 0 = end of file (the writer closed), EAGAIN = nothing was written
+		break
+	}
+	_ = syscall.Close(rfd)
+	if saveErr != nil {
+		fail("a named pipe", "error "+saveErr.Error())
+	} else if !bytes.Equal(gotBytes, want.Bytes()) {
+		fail("a named pipe", "the reader of the pipe did not receive the text")
 	}
 	if fi, err := os.Lstat(pipe); err != nil || fi.Mode()&os.ModeNamedPipe == 0 {
 		fail("a named pipe", "the pipe was replaced by something else")
